@@ -728,7 +728,7 @@ func c19HostileCorpus() []c19ATop {
 		dup("_deleted", "KTrue", "KFalse"), dup("_deleted", "KFalse", "KTrue"), dup("_exp", "KTrue", "KNull"), dup("_exp", "KNull", "KStr"),
 		dup("_removed", "KTrue", "KNull"), dup("_removed", "KNull", "KTrue"), dup("_rev", "KStr", "KNull"), dup("_cv", "KStr", "KNull"),
 		dup("_cv", "KNull", "KStr"), dup("_sync", "KObj", "KNull"), dup("_purged", "KTrue", "KNull"), dup("_attachments", "KObj", "KNull"),
-		dup("_sync_x", "KNum", "KNull"), dup("_revisions", "KObj", "KNull"), dup("_vv", "KNum", "KStr"), dup("", "KNum", "KStr"),
+		dup("_sync_x", "KNum", "KNull"), dup("_sync", "KStr", "KObj"), dup("_sync", "KNum", "KNull"), dup("_revisions", "KObj", "KNull"), dup("_vv", "KNum", "KStr"), dup("", "KNum", "KStr"),
 	)
 	out = append(out, c19Obj(" x", c19AM("b", "KNum", 1), a, c19AM("b", "KStr", 2)))
 	// one of two spellings escaped
@@ -765,7 +765,50 @@ func (e *c19Env) acceptStream() {
 			sinceSeq = ls.LastSeq
 		}
 	}
+	// BLIP pull of what the streams wrote, in chunks small enough for the channel cache to serve them: the rev
+	// messages as a peer receives them
 	var pulled []*c19Accepted
+	pullNow := func() {
+		if sinceSeq == "" || len(pulled) == 0 {
+			pulled = nil
+			return
+		}
+		e.rt.WaitForPendingChanges()
+		next := sinceSeq
+		var ls struct {
+			LastSeq string `json:"last_seq"`
+		}
+		if r := e.admin("GET", "/{{.keyspace}}/_changes?since="+sinceSeq, ""); json.Unmarshal(r.BodyBytes(), &ls) == nil && ls.LastSeq != "" {
+			next = ls.LastSeq
+		}
+		e.blipPull(sinceSeq)
+		for _, a := range pulled {
+			if !e.docIsCurrent(a) {
+				continue
+			}
+			e.pullMu.Lock()
+			body, ok := e.pulled[a.id]
+			off := e.offered[a.id]
+			e.pullMu.Unlock()
+			if !ok && !off && c19BeyondFloat64(a.raw) {
+				// Not the gateway: the JavaScript view engine of the test bucket (rosmar) cannot parse a number outside
+				// float64 ("Unparseable JSRunner input"), so a view-backed channel query does not list the document.
+				e.rec.Err("blip_pull:not-offered:rosmar-view-number-beyond-float64")
+				continue
+			}
+			e.readCase(a, "XBlipCE", "blip_pull", body, ok, false)
+		}
+		pulled = nil
+		sinceSeq = next
+	}
+	keep := func(a *c19Accepted) {
+		if a != nil && !a.skipRd {
+			pulled = append(pulled, a)
+			if len(pulled) >= 120 {
+				pullNow()
+			}
+		}
+	}
 	data := c19AM("a", "KNum", 0)
 	// (1) exhaustive key x kind for the entry points the "reserved" stream does not drive
 	for _, name := range []string{"EPost", "EPutNE", "EBulkNE"} {
@@ -780,9 +823,7 @@ func (e *c19Env) acceptStream() {
 				}
 				a := e.acceptCase("accept-exhaustive", en, c19Obj("", c19AM(k, kind.name, 1), data))
 				e.readAll(a, false)
-				if a != nil && !a.skipRd && len(pulled) < 400 {
-					pulled = append(pulled, a)
-				}
+				keep(a)
 			}
 		}
 	}
@@ -802,9 +843,7 @@ func (e *c19Env) acceptStream() {
 			}
 			a := e.acceptCase("accept-hostile", en, t)
 			e.readAll(a, true)
-			if a != nil && !a.skipRd {
-				pulled = append(pulled, a)
-			}
+			keep(a)
 		}
 	}
 	e.rec.Extra("accept_hostile_corpus", len(corpus))
@@ -833,24 +872,18 @@ func (e *c19Env) acceptStream() {
 		}
 		a := e.acceptCase("accept-random", en, c19Obj(trailers[e.rnd.Intn(len(trailers))], ms...))
 		e.readAll(a, e.rnd.Chance(30))
-		if a != nil && !a.skipRd && len(pulled) < 900 {
-			pulled = append(pulled, a)
-		}
+		keep(a)
 	}
-	// (4) a BLIP pull of everything the streams wrote: the rev messages as a peer receives them
-	if sinceSeq != "" {
-		e.rt.WaitForPendingChanges()
-		e.blipPull(sinceSeq)
-		for _, a := range pulled {
-			if !e.docIsCurrent(a) {
-				continue
-			}
-			e.pullMu.Lock()
-			body, ok := e.pulled[a.id]
-			e.pullMu.Unlock()
-			e.readCase(a, "XBlipCE", "blip_pull", body, ok, false)
-		}
+	pullNow()
+}
+
+// a stored text with a number literal that float64 cannot hold (encoding/json refuses it without UseNumber)
+func c19BeyondFloat64(raw []byte) bool {
+	if _, err := c19Decode(raw); err != nil {
+		return false
 	}
+	var v any
+	return json.Unmarshal(raw, &v) != nil
 }
 
 // the document still holds what the case stored (an expiry of a few seconds may have removed it meanwhile)
